@@ -242,6 +242,59 @@ def cases(seed: int = 0, thorough: bool = False):
     add("astype", lambda x: x.astype(np.float64) * 3, lambda x: x.astype(np.float64) * 3, {"x": xa}, "construct")
     add("astype-int", lambda x: x.astype(np.int32), lambda x: x.astype(np.int32), {"x": _arr(rng, (5,), "float64")}, "construct",
         exact=True)
+    # compound expressions that are inlined into ONE kernel expression: operator precedence of the printers
+    xi, yi, zi = _arr(rng, (6,), "int64"), _arr(rng, (6,), "int64"), _arr(rng, (6,), "int64")
+    comp = {
+        "(x^y)>=z": (lambda x, y, z: pt.greater_equal(x ^ y, z), lambda x, y, z: (x ^ y) >= z),
+        "(x&y)==z": (lambda x, y, z: pt.equal(x & y, z), lambda x, y, z: (x & y) == z),
+        "(x|y)<z": (lambda x, y, z: pt.less(x | y, z), lambda x, y, z: (x | y) < z),
+        "x^(y>=z)": (lambda x, y, z: x ^ pt.greater_equal(y, z), lambda x, y, z: x ^ (y >= z)),
+        "x&(y<z)": (lambda x, y, z: x & pt.less(y, z), lambda x, y, z: x & (y < z)),
+        "(x+y)^z": (lambda x, y, z: (x + y) ^ z, lambda x, y, z: (x + y) ^ z),
+        "x+(y^z)": (lambda x, y, z: x + (y ^ z), lambda x, y, z: x + (y ^ z)),
+        "(x|y)&z": (lambda x, y, z: (x | y) & z, lambda x, y, z: (x | y) & z),
+        "x|(y&z)": (lambda x, y, z: x | (y & z), lambda x, y, z: x | (y & z)),
+        "-(x**2)": (lambda x, y, z: -(x ** 2), lambda x, y, z: -(x ** 2)),
+        "(-x)**2": (lambda x, y, z: (-x) ** 2, lambda x, y, z: (-x) ** 2),
+        "x-(y-z)": (lambda x, y, z: x - (y - z), lambda x, y, z: x - (y - z)),
+        "x//(y*y+1)*z": (lambda x, y, z: x // (y * y + 1) * z, lambda x, y, z: x // (y * y + 1) * z),
+        "x%(y*y+1)-z": (lambda x, y, z: x % (y * y + 1) - z, lambda x, y, z: x % (y * y + 1) - z),
+        "not(x<y)|(y<z)": (lambda x, y, z: pt.logical_or(pt.logical_not(pt.less(x, y)), pt.less(y, z)),
+                           lambda x, y, z: np.logical_or(np.logical_not(x < y), y < z)),
+        "where((x<y)&(y<z))": (lambda x, y, z: pt.where(pt.logical_and(pt.less(x, y), pt.less(y, z)), x, z),
+                               lambda x, y, z: np.where((x < y) & (y < z), x, z)),
+        "(x<y)==(y<z)": (lambda x, y, z: pt.equal(pt.less(x, y), pt.less(y, z)), lambda x, y, z: (x < y) == (y < z)),
+        "(x/2)/(y*y+1)": (lambda x, y, z: (x / 2) / (y * y + 1), lambda x, y, z: (x / 2) / (y * y + 1)),
+        "x/(2/(y*y+1))": (lambda x, y, z: x / (2 / (y * y + 1)), lambda x, y, z: x / (2 / (y * y + 1))),
+    }
+    for lbl, (fp, fn) in comp.items():
+        add(f"compound:{lbl}", fp, fn, {"x": xi, "y": yi, "z": zi}, "compound", exact=True, always_execute=True)
+    # operands that are constant-valued ARRAYS (full/ones/zeros): they are inlined as bare constants
+    xf = _arr(rng, (6,), "float32")
+    consts = {"ones-bool": (lambda: pt.ones((6,), dtype=bool), np.ones((6,), dtype=bool)),
+              "zeros-bool": (lambda: pt.zeros((6,), dtype=bool), np.zeros((6,), dtype=bool)),
+              "full-2.5": (lambda: pt.full((6,), 2.5), np.full((6,), 2.5)),
+              "full-int3": (lambda: pt.full((6,), 3, dtype="int64"), np.full((6,), 3, dtype="int64")),
+              "full-True": (lambda: pt.full((6,), True), np.full((6,), True))}
+    cfns = {"greater": np.greater, "less_equal": np.less_equal, "equal": np.equal, "not_equal": np.not_equal,
+            "logical_and": np.logical_and, "logical_or": np.logical_or, "add": np.add, "mul": np.multiply,
+            "sub": np.subtract}
+    for cn, (mk, cv) in consts.items():
+        for fnm, fn in cfns.items():
+            fp = (lambda a, b, fnm=fnm: getattr(pt, fnm)(a, b)) if hasattr(pt, fnm) else \
+                (lambda a, b, fnm=fnm: {"add": operator.add, "mul": operator.mul, "sub": operator.sub}[fnm](a, b))
+            for order in (0, 1):
+                for inner in ("x", "sin(x)", "x>0"):
+                    mkx = {"x": lambda x: x, "sin(x)": lambda x: pt.sin(x), "x>0": lambda x: pt.greater(x, 0)}[inner]
+                    npx = {"x": lambda x: x, "sin(x)": np.sin, "x>0": lambda x: x > 0}[inner]
+                    if fnm == "sub" and (inner == "x>0" and cv.dtype == bool):
+                        continue
+                    add(f"constant-operand:{fnm}:{cn}:{inner}:{order}",
+                        (lambda x, fp=fp, mk=mk, mkx=mkx: fp(mkx(x), mk())) if order == 0 else
+                        (lambda x, fp=fp, mk=mk, mkx=mkx: fp(mk(), mkx(x))),
+                        (lambda x, fn=fn, cv=cv, npx=npx: fn(npx(x), cv)) if order == 0 else
+                        (lambda x, fn=fn, cv=cv, npx=npx: fn(cv, npx(x))),
+                        {"x": xf}, "constant-operand", always_execute=(order == 0 and inner != "x"))
     # sparse
     dense = np.array([[0., 2., 0., 1.], [3., 0., 0., 0.], [0., 0., 0., 0.], [0., 4., 5., 0.]])
     rows, cols = np.nonzero(dense)
